@@ -59,10 +59,12 @@ func runEvalPlans(w *Writer, r *Rng, t Tier, plans []evalPlan) error {
 		}
 		if di%8 == 5 {
 			// a deep, narrow document: string-values and ancestor walks over 9 … 18 levels
+			// (small and without namespace nodes: nested predicates cost size^depth evaluations)
 			cfg.Spine = 9 + dr.Intn(10)
 			cfg.MaxDepth = cfg.Spine + 2
 			cfg.MaxKids = 2
-			cfg.MaxNodes += 2 * cfg.Spine
+			cfg.MaxNodes = cfg.Spine + 10
+			cfg.Namespaces = false
 		}
 		doc, err := w.NewDoc(fmt.Sprintf("d%d", di), GenEvents(dr, cfg))
 		if err != nil {
@@ -257,6 +259,29 @@ func GenProperty(w *Writer, prop string, t Tier, seed uint64) error {
 					e = Bin{Op: "union", L: e, R: g.NodeSet(2, false)}
 				}
 				return e, g.Start
+			}},
+			{fam: "forward-nested", doc: docDefault, gen: func(g *ExprGen, d *Doc, r *Rng) (Expr, int) {
+				// a forward axis from context nodes that CONTAIN each other while the first and the last of them
+				// are siblings (or arrive in reverse order): the per-node results overlap and interleave
+				kids := Step{Base: Step{Base: Root{}, Axis: "child", Test: Test{Kind: "any"}}, Axis: "child", Test: Test{Kind: Pick(r, []string{"any", "node"})}}
+				grand := Step{Base: kids, Axis: "child", Test: Test{Kind: Pick(r, []string{"any", "node"})}}
+				var ctx Expr
+				switch r.Intn(4) {
+				case 0:
+					ctx = Bin{Op: "union", L: kids, R: grand}
+				case 1:
+					ctx = Bin{Op: "union", L: kids, R: Step{Base: kids, Axis: "descendant", Test: Test{Kind: "any"}}}
+				case 2:
+					ctx = Step{Base: Step{Base: kids, Preds: nil, Axis: "self", Test: Test{Kind: "node"}, }, Axis: "preceding-sibling", Test: Test{Kind: "any"}}
+				default:
+					ctx = Step{Base: Step{Base: Root{}, Axis: "descendant", Test: Test{Kind: "any"}}, Axis: "self", Test: Test{Kind: "any"}}
+				}
+				e := Expr(Step{Base: ctx, Axis: Pick(r, []string{"descendant", "descendant", "descendant-or-self", "following", "following-sibling", "child"}),
+					Test: Pick(r, []Test{{Kind: "any"}, {Kind: "node"}, {Kind: "text"}})})
+				if r.Chance(1, 3) {
+					e = Bin{Op: "union", L: e, R: e}
+				}
+				return e, 0
 			}},
 			{fam: "reverse-multi", doc: docDefault, gen: func(g *ExprGen, d *Doc, r *Rng) (Expr, int) {
 				// a reverse-axis step WITH a predicate that keeps several nodes, from several context
@@ -606,8 +631,15 @@ func GenProperty(w *Writer, prop string, t Tier, seed uint64) error {
 				case 6:
 					return Call{Base: Ctx{}, Name: "count", Args: []Expr{g.Any(1)}}, g.Start
 				}
-				return Call{Base: Ctx{}, Name: "count", Args: []Expr{Step{Base: Step{Base: Root{}, Axis: "descendant-or-self", Test: Test{Kind: "node"}},
-					Axis: "child", Test: Test{Kind: "any"}, Preds: []Expr{Call{Base: Ctx{}, Name: "lang", Args: []Expr{Lit{S: Pick(r, LangPool)}}}}}}}, 0
+				// lang() with EVERY kind of node as context node: elements, and through their parent's chain
+				// attributes, namespace nodes (own and inherited), text, comments, processing instructions
+				langSet := Step{Base: Step{Base: Root{}, Axis: "descendant-or-self", Test: Test{Kind: "node"}},
+					Axis: Pick(r, []string{"child", "child", "namespace", "namespace", "attribute"}), Test: Test{Kind: Pick(r, []string{"any", "any", "node"})},
+					Preds: []Expr{Call{Base: Ctx{}, Name: "lang", Args: []Expr{Lit{S: Pick(r, LangPool)}}}}}
+				if r.Chance(1, 3) {
+					return langSet, 0
+				}
+				return Call{Base: Ctx{}, Name: "count", Args: []Expr{langSet}}, 0
 			}},
 		})
 	case "C08":
@@ -649,6 +681,8 @@ func GenProperty(w *Writer, prop string, t Tier, seed uint64) error {
 		if _, err := GenExhaustiveAxisPairs(w, map[bool]int{false: 3, true: 4}[t.Thorough], "axis-pairs-small-scope"); err != nil {
 			return err
 		}
+		// the tags of Unmarshal are sub-queries from the struct's node
+		unmProbes(w, "subq-unm")
 		return runEvalPlans(w, r, t, []evalPlan{
 			{fam: "subq", doc: docDefault, gen: func(g *ExprGen, d *Doc, r *Rng) (Expr, int) {
 				g.Cfg.Preds = 3
@@ -766,6 +800,7 @@ func GenRebindFamily(w *Writer, r *Rng, t Tier, fam string) error {
 		}
 		// the caller's OWN maps, handed over by a ContextApply of its own: no later Exec may touch them
 		callerMaps(w, doc, fam)
+		nestedExec(w, fam)
 		pv := Var{HasPfx: true, Pfx: "p", Name: "k"}
 		ps := Var{HasPfx: true, Pfx: "p", Name: "s"}
 		pf := Call{Base: Ctx{}, HasPfx: true, Pfx: "p", Name: "const"}
@@ -833,6 +868,56 @@ func callerMaps(w *Writer, doc *Doc, fam string) {
 		return "ok"
 	})
 	w.Line("fuzz", okOnly(outcome == "ok", outcome), map[string]interface{}{"k": "fuzz", "fam": fam + "-caller-maps", "text": "a ContextApply that installs the caller's own maps, then other Execs", "outcome": outcome, "expect": "ok", "n": 3})
+}
+
+// nestedExec: a user function may itself execute a query — the SAME compiled expression included — while the
+// outer evaluation is suspended in it; the outer result must be what a run without the nested one gives
+// (seeded change C13-11 kept evaluation state in the compiled expression)
+func nestedExec(w *Writer, fam string) {
+	outcome := guard(func() string {
+		c, err := xsel.ReadXml(strings.NewReader("<r><a>1</a><a>2</a><a>3</a><b><c>4</c></b><d><e><f>5</f></e></d></r>"))
+		if err != nil {
+			return "ok"
+		}
+		yes := func(ctx xsel.Context, args ...xsel.Result) (xsel.Result, error) { return xsel.Bool(true), nil }
+		show := func(r xsel.Result, err error) string {
+			if err != nil {
+				return "err"
+			}
+			if ns, ok := r.(xsel.NodeSet); ok {
+				s := "nodes"
+				for _, n := range ns {
+					s += fmt.Sprintf(" %d", n.Pos())
+				}
+				return s
+			}
+			return r.String()
+		}
+		for _, text := range []string{"/r/a[ok()] | /r/b[c]", "count(/r/a[ok()]) + count(/r/b/c)", "/r/a[ok()]/following-sibling::d/e[f]", "string(/r/a[ok()][2]) = string(//e/f) or //c[ok()] = 4"} {
+			g, err := xsel.BuildExpr(text)
+			if err != nil {
+				return "builderr " + text
+			}
+			plain := show(xsel.Exec(c, &g, xsel.WithFunction("ok", yes)))
+			depth := 0
+			var nesting xsel.Function
+			nesting = func(ctx xsel.Context, args ...xsel.Result) (xsel.Result, error) {
+				if depth == 0 {
+					depth++
+					_, _ = xsel.Exec(c, &g, xsel.WithFunction("ok", nesting))
+					depth--
+				}
+				return xsel.Bool(true), nil
+			}
+			nested := show(xsel.Exec(c, &g, xsel.WithFunction("ok", nesting)))
+			again := show(xsel.Exec(c, &g, xsel.WithFunction("ok", yes)))
+			if nested != plain || again != plain {
+				return fmt.Sprintf("a-nested-execution-of-the-same-expression-changes-the-result: %s: plain %q nested %q afterwards %q", text, plain, nested, again)
+			}
+		}
+		return "ok"
+	})
+	w.Line("fuzz", okOnly(outcome == "ok", outcome), map[string]interface{}{"k": "fuzz", "fam": fam + "-nested-exec", "text": "a user function that executes the same compiled expression while the outer evaluation is suspended in it", "outcome": outcome, "expect": "ok", "n": 4})
 }
 
 func strArgNum(g *ExprGen, r *Rng) Expr {
